@@ -115,7 +115,7 @@ def run(tier, seed):
     names = [':enabled', ':disabled', ':required', ':optional', ':read-write', ':read-only', ':in-range', ':out-of-range', ':link',
              ':any-link', ':checked', ':default', ':indeterminate', ':placeholder-shown', ':dir(ltr)', ':dir(rtl)', ':root']
     for profile in ('forms', 'forms', 'langdir'):
-        for sc in campaign.build(rnd, profile, n // 3 + 1, 0):
+        for sc in campaign.build(rnd, profile, n // 3 + 1, 0, modes=['api', 'html.parser', 'lxml', 'html5lib']):   # HTML documents only
             top = sc.top
             D = selspec.Doc(top)
             if not D.is_html or not D.is_docobj:
